@@ -93,4 +93,20 @@ theorem conect_4wide_loses_bonds :
         ++ ' ' :: renderField ⟨' ', .right, 4, 0, .d, true⟩ (.int 10000))).toOption = some [9999, 0] := by
   decide +kernel
 
+/-! ## ter_split on the extracted layout -/
+
+/-- the TER line the writer puts after each molecule and the closing END line are end-of-molecule
+lines for the reader, whatever residue data the TER line carries -/
+theorem ter_end_lines_finish (excl : List (List Char)) (ignh : Bool) (serial : Nat) (a : Atom) :
+    ReadsAsFinish pdb excl ignh (terLine pdb serial a) ∧ ReadsAsFinish pdb excl ignh pdb.endLine := by
+  constructor
+  · have : terLine pdb serial a = ['T', 'E', 'R'] ++ [' ', ' ', ' '] ++ render terFmt.tail (atomEnv serial a) := rfl
+    rw [this]
+    exact reads_as_finish pdb excl ignh _ _ _ (by decide) (by decide) (by decide) (by decide) (by decide)
+      (by decide) (by decide)
+  · have : pdb.endLine = ['E', 'N', 'D'] ++ [' ', ' ', ' '] ++ [] := rfl
+    rw [this]
+    exact reads_as_finish pdb excl ignh _ _ _ (by decide) (by decide) (by decide) (by decide) (by decide)
+      (by decide) (by decide)
+
 end C16
